@@ -52,6 +52,7 @@ type Step struct {
 	OobNew    *PreObj   `json:"oobnew,omitempty"` // somebody else creates an object
 	OobKeep   string    `json:"oobkeep,omitempty"`
 	OobUnkeep string    `json:"oobunkeep,omitempty"`
+	OobDisown string    `json:"oobdisown,omitempty"` // somebody relabels the object: managed-by no longer says Helm
 }
 
 type EditStep struct {
@@ -422,6 +423,21 @@ func (e *Env) applyEnvStep(i int, s Step) {
 			})
 		}
 		e.Rec.Log(Event{Step: i, Ev: "edit", Kind: "oobunkeep", ID: s.OobUnkeep, OK: true})
+	case s.OobDisown != "":
+		k, ok := e.findObj(s.OobDisown)
+		if !ok {
+			return
+		}
+		e.Sim.Mutate(k, func(o map[string]interface{}) {
+			md, _ := o["metadata"].(map[string]interface{})
+			lbl, _ := md["labels"].(map[string]interface{})
+			if lbl == nil {
+				lbl = map[string]interface{}{}
+				md["labels"] = lbl
+			}
+			lbl["app.kubernetes.io/managed-by"] = "someone-else"
+		})
+		e.Rec.Log(Event{Step: i, Ev: "edit", Kind: "oobdisown", ID: s.OobDisown, OK: true})
 	case s.OobKeep != "":
 		if _, ok := e.findObj(s.OobKeep); !ok {
 			return
